@@ -13,3 +13,47 @@ impl PeersStore {
         self.info_hashes.len()
     }
 }
+
+use std::net::SocketAddrV4 as A4;
+
+//@ ob: C20.O2
+//@ tier: thorough
+//@ cap: 1800
+//@ standins: lru
+//@ also: C03
+//@ desc: the peers store never exceeds its configured capacities: with max_peers_per_info_hash = 3, announcing 4 distinct peers on one info hash leaves exactly the 3 most recently announced (the first is evicted), re-announcing a known peer does not grow the set; with max_info_hashes = 1 a second info hash evicts the first
+//@ bounds: capacities (1 info hash, 3 peers); 4 + 1 concrete announcements, one symbolic repeat; on the lru stand-in (4 fixed slots; validated differentially against the real crate, including resize); unwind 8
+//@ stubs: none
+//@ functions: PeersStore::{new,add_peer}, LruCache::{new,get_mut,put} as used by the store
+#[kani::proof]
+#[kani::unwind(8)]
+fn c20_o2_peers_capacity() {
+    let one = NonZeroUsize::new(1).unwrap();
+    let three = NonZeroUsize::new(3).unwrap();
+    let mut store = PeersStore::new(one, three);
+    let ih = Id::from([1u8; 20]);
+    let mk = |i: u8| (Id::from([0x10 + i; 20]), A4::new([10, 0, 0, i].into(), 1000 + i as u16));
+    let peers = [mk(1), mk(2), mk(3), mk(4)];
+    let mut i = 0;
+    while i < 4 {
+        store.add_peer(ih, (&peers[i].0, peers[i].1));
+        let n = store.kani_peers(&ih).map(|p| p.0).unwrap_or(0);
+        assert!(n <= 3, "C20.O2 store never exceeds its capacity");
+        assert!(n == if i < 3 { i + 1 } else { 3 }, "C20.O2 every announced peer is stored until the capacity is reached");
+        i += 1;
+    }
+    assert!(store.kani_peers(&ih).and_then(|p| p.1) == Some(peers[3].1), "C20.O2 the most recent announcement is kept");
+    let has_first = store.info_hashes.peek(&ih).map(|l| l.contains(&peers[0].0)).unwrap_or(false);
+    assert!(!has_first, "C20.O2 the least recently announced peer is the one evicted");
+    // re-announcing a known peer does not grow the set
+    let again: u8 = kani::any();
+    kani::assume(again >= 1 && again <= 3);
+    store.add_peer(ih, (&peers[again as usize].0, peers[again as usize].1));
+    assert!(store.kani_peers(&ih).map(|p| p.0) == Some(3), "C20.O2 store never exceeds its capacity");
+    // a second info hash with max_info_hashes = 1 evicts the first
+    let ih2 = Id::from([2u8; 20]);
+    store.add_peer(ih2, (&peers[0].0, peers[0].1));
+    assert!(store.kani_info_hashes() == 1 && store.kani_peers(&ih).is_none(), "C20.O2 info hashes are bounded, least recently used goes");
+    kani::cover!(again == 2);
+    std::mem::forget(store);
+}
